@@ -25,6 +25,7 @@ def _load_contracts(prop):
             if f.startswith(prop + '_') and f.endswith('.py')]
     if not mods and not os.path.exists(os.path.join(VERIF, 'contracts', f'extra_{prop}.py')):
         raise SystemExit(f'no contract module for {prop}')
+    mods += [m for m in os.environ.get('VERIF_EXTRA_CONTRACTS', '').split(',') if m]     # work-in-progress files (never set by a registered command)
     for m in mods:
         importlib.import_module('contracts.' + m)
     return {k: g for k, g in api.GROUPS.items() if g.property_id == prop}
